@@ -32,6 +32,7 @@
 -/
 import MdProofs.Lemmas.WalkChain
 import MdProofs.Lemmas.WalkScanChain
+import MdProofs.Lemmas.WalkChainMixed
 namespace MdModel.Walk
 open MdModel
 
@@ -194,8 +195,58 @@ theorem walk_layout_scan_concrete (a : Arch) (os : Os) (w : World) (mem : Mem) (
   obtain ⟨hm, hno, ⟨⟨⟨_, hv⟩, hfp⟩, _⟩, hp⟩ := hpre
   exact walk_layout_scan (mkEnv a os w mem) a rfl ha (mkEnv_noCfi a os w mem hno) mem hm ctx hv hfp h64 chain hp
 
+/-- **C04, technique changing from frame to frame (partial: ARM64, frame pointer / scan).**
+    "…laid out by the platform calling convention (frame-pointer chains) … or findable only by
+    scanning …": on ARM64 (both context layouts), in an environment without CFI, a stack in which
+    every frame is EITHER a frame-pointer record (`linkFp`) OR findable only by scanning
+    (`linkScan`, the callee's frame pointer being invalid or 0) — in any order, to any depth — is
+    walked to exactly the generated frames: each with its own technique label (`frame_pointer` /
+    `scan`), return address, stack pointer, recovered frame pointer, and the walk stops at the
+    generated end. PARTIAL with respect to the full statement `walk_layout_mixed` (comment below):
+    two of the four techniques, one architecture family. -/
+theorem walk_layout_mixed_partial (env : Env) (a : Arch) (ha : a = .arm64 ∨ a = .arm64old)
+    (harch : env.arch = a) (hcfi : NoCfi env) (mem : Mem) (hm : mem.range?.isSome = true)
+    (ctx : Ctx) (hv : ctx.valid = none) (h64 : ctx.m64 = false) (chain : List Exp)
+    (hpre : preMix env a mem { sp := ctx.sp, fp := some (ctx.raw a a.fpName), first := true } chain = true) :
+    walk env (some mem) ctx =
+      symbolise env (Frame.ofCtx ctx .context) ::
+        expectedMix env a { sp := ctx.sp, fp := some (ctx.raw a a.fpName), first := true } chain := by
+  have hused : (some mem).bind (fun m => m.range?.map fun _ => m) = some mem := by
+    obtain ⟨r, hr⟩ := Option.isSome_iff_exists.mp hm
+    simp [hr]
+  unfold walk
+  simp only [hused]
+  rw [expectedMix_foldr]
+  rw [preMix_foldr] at hpre
+  exact walkLoop_chain_generic (MixView a) (mixLink env a mem) (mixEnd env a mem) (fun st => st.sp)
+    (mixFrame a) mixNext (fun f st h => h.1) (fun f st h => h)
+    (step_mix_arm64 ha harch hcfi) (mixNext_view ha) (step_mix_end_arm64 ha harch hcfi)
+    chain (walkFuel mem) (Frame.ofCtx ctx .context) none _ (mix_view_context a ha ctx hv h64) hpre
+    (need_context_le mem ctx)
+
+/-- the frames of a mixed chain carry their own technique label -/
+theorem expectedMix_trust (env : Env) (a : Arch) (ha : a = .arm64 ∨ a = .arm64old) (st : MixSt) (e : Exp)
+    (rest : List Exp) :
+    (expectedMix env a st (e :: rest)).head?.map (·.trust) = some (if e.tech = "fp" then Trust.fp else Trust.scan) := by
+  simp only [expectedMix, List.head?_cons, Option.map_some, symbolise_trust, mixFrame]
+  rcases ha with ha | ha <;> subst ha <;> by_cases h : e.tech = "fp" <;> simp [h, fpFrame, scanFrame]
+
 /-
   Stated, not proved (the tie checks them on every generated case; see the header):
+
+  theorem walk_layout_mixed (a : Arch) (os : Os) (w : World) (wins : List (List Win.Rec)) (mem : Mem)
+      (ctx : Ctx) (chain : List Exp) :
+      PreW w wins (mkEnvW a os w wins mem) a os mem ctx chain = true →
+      walk (mkEnvW a os w wins mem) (some mem) ctx = context frame :: one frame per `e ∈ chain` with
+        trust by `e.tech` (cfi / frame_pointer / scan; `win` ↦ cfi), ip = e.ret, sp = e.sp, frame
+        pointer `e.fp` and registers `e.regs` valid with these values
+      — `PreW` (MdModel/Walk/LayoutMixed.lean) is evaluated on every generated `mixed` / `win` case;
+      proved part: `walk_layout_mixed_partial` (ARM64, fp / scan) and the generic chain induction
+      `walkLoop_chain_generic` every technique plugs into.
+  theorem walk_layout_win : the instance of `walk_layout_mixed` for x86 chains all of whose frames
+      are found through STACK WIN records (frame data with the standard prologue program and its
+      `.raSearch` variants, FPO with and without a base pointer, grand-callee parameter sizes,
+      the leftover-return-address skip on the context frame only).
 
   theorem walk_layout_fp_win : the same as `walk_layout_fp` with `a = .amd64`, `env.os = .windows`
       (`linkFp` then allows the record at `rbp + 16k`, `k ≤ 15`, with zero words at the smaller
@@ -228,6 +279,32 @@ example : (walk { arch := .amd64, os := .other, cfi := fun _ _ => none, instrOk 
                   symb := fun _ => (none, none), mask := 0 }
       (some exChainMem) { ip := 0x7000, sp := 4096, rest := [("rbp", 4096)] }).length = 3 := by
   rw [walk_layout_fp _ .amd64 rfl rfl (fun _ => by decide) (fun _ _ => rfl) exChainMem (by decide) _ rfl rfl exChain (by decide)]
+  rfl
+
+/-! ## non-vacuity: an ARM64 stack with one frame-pointer frame followed by one scanned frame -/
+
+def exMixMem : Mem :=
+  { base := 4096, bytes := #[
+      0, 0, 0, 0, 0, 0, 0, 0,         0, 0, 0, 0, 0, 0, 0, 0,
+      0, 0, 0, 0, 0, 0, 0, 0,         0x00, 0x50, 0, 0, 0, 0, 0, 0,    -- record at 0x1010: fp 0, ret 0x5000
+      7, 0, 0, 0, 0, 0, 0, 0,         0x00, 0x60, 0, 0, 0, 0, 0, 0,    -- junk 7, then 0x6000 (found by scan)
+      0, 0, 0, 0, 0, 0, 0, 0,         0, 0, 0, 0, 0, 0, 0, 0 ] }
+
+def exMixEnv : Env :=
+  { arch := .arm64, os := .other, cfi := fun _ _ => none, instrOk := fun ip => ip == 0x6000,
+    symb := fun _ => (none, none), mask := 2 ^ 47 - 1 }
+
+def exMixChain : List Exp :=
+  [ { ret := 0x5000, sp := 0x1020, fp := some 0, tech := "fp" },
+    { ret := 0x6000, sp := 0x1030, fp := none, tech := "scan" } ]
+
+example : preMix exMixEnv .arm64 exMixMem { sp := 0x1000, fp := some 0x1010, first := true } exMixChain = true := by
+  decide
+
+example : (walk exMixEnv (some exMixMem) { ip := 0x7000, sp := 0x1000, rest := [("fp", 0x1010)] }).map (·.trust) =
+    [.context, .fp, .scan] := by
+  rw [walk_layout_mixed_partial exMixEnv .arm64 (Or.inl rfl) rfl (fun _ _ => rfl) exMixMem (by decide) _ rfl rfl
+    exMixChain (by decide)]
   rfl
 
 end MdModel.Walk
